@@ -47,7 +47,7 @@ package renameio
 // Symlink: the new link is created inside a fresh temporary directory next to newname and
 // then renamed onto newname; nothing else touches newname after the fast path failed.
 //@ func Symlink
-//@   modifies fsPublishes, fsPubSrc, fsPubDst, fsRemoves, fsRemoved
+//@   modifies fsPublishes, fsPubSrc, fsPubDst, fsRemoves, fsRemoved, fsTreeRemoves
 //@   ghost var d string = ""
 //@   ghost var j string = ""
 //@   ghost var made bool = false
